@@ -11,6 +11,7 @@ mod c05;
 mod c06;
 mod c07;
 mod c08;
+mod c08_actor;
 mod c08_cluster;
 mod c09;
 mod c10;
